@@ -404,6 +404,9 @@ Fixpoint expect (bs : list N) (fuel : nat) (off : N) (its : list item) : list to
 Definition expect_all (ls : list lexeme) (seps : list sep) : list token * list comment :=
   let its := items_of ls seps in expect (render_items its) (length its) 0 its.
 
+Definition raw_tokens (ls : list lexeme) (seps : list sep) : list token := fst (expect_all ls seps).
+Definition raw_comments (ls : list lexeme) (seps : list sep) : list comment := snd (expect_all ls seps).
+
 Definition rtok_of (t : token) : rtok := (ttype t, tval t, tquote t).
 Definition comments_of (seps : list sep) : list (list N * N) :=       (* (text, style) *)
   flat_map (flat_map (fun t => match t with
